@@ -118,6 +118,6 @@ example : Total exEnv := ⟨fun _ => rfl, rfl⟩
 example : (run exEnv (initSt .debug) exOps).2.wraps = [true] ∧ (run exEnv (initSt .debug) exOps).2.log.length = 2 ∧
           (run exEnv (initSt .off) exOps).2.wraps = [false] ∧ (run exEnv (initSt .off) exOps).2.log.length = 0 ∧
           obs exEnv (initSt .debug) exOps = obs exEnv (initSt .off) exOps ∧
-          obs exEnv (initSt .off) exOps = ["ok", "cbsum1(sab,[4])->r:7", "ok", "->r:9"] := by decide
+          obs exEnv (initSt .off) exOps = ["ok", "cbsum1(sab,[4]#1)->r:7~a1", "ok", "->r:9"] := by decide
 
 end C19
